@@ -4,6 +4,7 @@ or new content whatever the crash point; temporary files never replace the targe
 See props/_atomicfile.py for the pipeline, spec/AtomicFile.tla for the model, notes/C06.md for the reasoning."""
 import collections
 import os
+import re
 
 from lib import common, tlc
 from lib.common import Result, Violation, InfraError
@@ -44,18 +45,10 @@ def design(ctx):
                                 timeout=ctx.pick(900, 2400), extra_files=[any_cfg], name="mc_any")),
         ("any_neg", lambda: tlc.run(ctx, af.MODULE, "AtomicFile_mc_any_neg.cfg", workers=1, timeout=600, name="mc_any_neg")),
         ("any_live", lambda: tlc.run(ctx, af.MODULE, "AtomicFile_mc_any_live.cfg", workers=1, timeout=600, name="mc_any_live")),
-        ("neg_exposure", lambda: tlc.run(ctx, af.MODULE, "AtomicFile_mc_neg_exposure.cfg", workers=1, timeout=600,
-                                         name="mc_neg_exposure")),
-        ("nodirsync", lambda: tlc.run(ctx, af.MODULE, "AtomicFile_mc_neg_nodirsync.cfg", workers=1, timeout=600,
-                                      name="mc_nodirsync")),
-        ("durable", lambda: tlc.run(ctx, af.MODULE, "AtomicFile_mc_durable.cfg", workers=1, timeout=600, name="mc_durable")),
-        ("durable_nodirsync", lambda: tlc.run(ctx, af.MODULE, "AtomicFile_mc_durable_nodirsync.cfg", workers=1, timeout=600,
-                                              name="mc_durable_nodirsync")),
+        ("matrix", lambda: tlc.run(ctx, af.MODULE, "AtomicFile_mc_matrix.cfg", workers=1, timeout=600, name="mc_matrix",
+                                   extra_args=["-continue"])),
     ]
-    for v in NEG_VARIANTS:
-        jobs.append(("neg_" + v, (lambda v=v: tlc.run(ctx, af.MODULE, "AtomicFile_mc_neg_%s.cfg" % v, workers=1, timeout=600,
-                                                     name="mc_neg_" + v))))
-    r = af.run_parallel(jobs, ctx.pick(6, 6))
+    r = af.run_parallel(jobs, 5)
 
     mc, anyr = r["writer"], r["any"]
     if not mc.ok:
@@ -63,18 +56,30 @@ def design(ctx):
     if not anyr.ok:
         raise InfraError("spec-level counterexample in AnySpec (lemma DisciplineSafe): %s" % anyr.summary())
     tlc.require_coverage(mc, ["WInit", "WStep", "WCrash"])
-    tlc.require_coverage(anyr, ["AnyInit", "AnyNext"])
+    tlc.require_coverage(anyr, ["AnyInit", "AnySys", "AnyCrash"])
     # the model must be able to say no (vacuity of the invariants / of the crash model)
-    expect_violation = {"any_neg": "OldOrNew", "any_live": "NeverCompletes", "neg_exposure": "NoEarlyExposure",
-                        "durable_nodirsync": "DurableWhenDone"}
-    for v in NEG_VARIANTS:
-        expect_violation["neg_" + v] = "OldOrNew"
-    for k, inv in expect_violation.items():
+    for k, inv in (("any_neg", "OldOrNew"), ("any_live", "NeverCompletes")):
         if r[k].kind != "invariant" or r[k].name != inv:
-            raise InfraError("spec-level negative control %s: expected violation of %s, got %s" % (k, inv, r[k].summary()))
-    for k in ("nodirsync", "durable"):
-        if not r[k].ok:
-            raise InfraError("spec-level control %s: expected no violation, got %s" % (k, r[k].summary()))
+            raise InfraError("spec-level control %s: expected violation of %s, got %s" % (k, inv, r[k].summary()))
+    # matrix: TLC -continue reports every violating state with its behaviour; collect (variant, invariant)
+    got = {}
+    for blk in r["matrix"].out.split("Error: Invariant ")[1:]:
+        m1 = re.match(r"(\w+) is violated", blk)
+        m2 = re.findall(r'pc = <<"(\w+)"', blk)
+        if not m1 or not m2:
+            raise InfraError("cannot parse the -continue output of the matrix run")
+        got.setdefault(m2[-1], set()).add(m1.group(1))
+    if "Model checking completed" not in r["matrix"].out and "states left on queue" not in r["matrix"].out:
+        raise InfraError("matrix run did not finish: %s" % r["matrix"].summary())
+    expect = {"good": set(), "nodirsync": {"DurableWhenDone"}}
+    for v in NEG_VARIANTS:
+        expect[v] = {"OldOrNew", "NoEarlyExposure"}
+    for v, want in expect.items():
+        have = got.get(v, set()) - ({"DurableWhenDone"} if v in NEG_VARIANTS else set())
+        if have != want:
+            raise InfraError("spec-level control: WriterSpec variant %s violates %s, expected %s" % (
+                v, sorted(have), sorted(want)))
+    expect_violation = {v: sorted(got.get(v, set())) for v in sorted(expect)}
     ctx.log("design: WriterSpec %d states (0..%d chunks), AnySpec %d distinct / %d generated (%d syscalls, %.0fs); "
             "%d negative controls behave" % (mc.distinct, wr_chunks, anyr.distinct, anyr.generated, any_steps, anyr.wall,
                                              len(expect_violation)))
@@ -85,11 +90,12 @@ def design(ctx):
         "writer_states": mc.distinct, "writer_transitions": mc.generated,
         "any_states": anyr.distinct, "any_transitions": anyr.generated, "any_wall_s": round(anyr.wall, 1),
         "action_coverage": {"WriterSpec": tlc.coverage_summary(mc), "AnySpec": tlc.coverage_summary(anyr)},
-        "spec_negative_controls": {k: "%s violated after %d states" % (r[k].name, r[k].generated) for k in expect_violation},
-        "spec_informational": {
-            "nodirsync_variant_satisfies_C06": r["nodirsync"].ok,
-            "nodirsync_variant_violates_DurableWhenDone": r["durable_nodirsync"].kind == "invariant",
-            "good_variant_satisfies_DurableWhenDone": r["durable"].ok},
+        "spec_negative_controls": {
+            "writer_variant_violates": expect_violation,
+            "any_without_discipline": "%s violated after %d states" % (r["any_neg"].name, r["any_neg"].generated),
+            "any_disciplined_write_completes": "witness found after %d states" % r["any_live"].generated},
+        "spec_informational": "the nodirsync variant satisfies OldOrNew/NoEarlyExposure (C06) and violates only the "
+                              "stronger DurableWhenDone; the good variant satisfies all three",
     }
     return info, mc.distinct + anyr.distinct, mc.generated + anyr.generated
 
@@ -116,6 +122,7 @@ def run(ctx):
 
     # functional read-back (no crash at all): the file must be Old or New, and New when the call said so
     not_done = []
+    extra_notes = []
     for ct in cts:
         rec = ct.rec
         tag = "%s:%s" % (rec["variant"], "old" if rec["old"] else "noold")
@@ -126,8 +133,8 @@ def run(ctx):
                     rec["case"], rec["api_err"], rb, rec["detail"]), {"case": rec})
         elif rec["expect"] == "new" and rb != "new":
             not_done.append("%s: api_err=%r readback=%s" % (rec["case"], rec["api_err"], rb))
-        if rec.get("extra"):
-            add("%s:%s" % (tag, rec["extra"][:40]), "%s: %s" % (rec["case"], rec["extra"]), {"case": rec})
+        if rec.get("extra"):       # not part of the statement (e.g. file mode): reported, never a violation
+            extra_notes.append("%s: %s" % (rec["case"], rec["extra"]))
 
     findings, vstats = af.validate_cases(ctx, cts)
     for f in findings:
@@ -186,6 +193,9 @@ def run(ctx):
         jobs = []
         for name, expect_accept, rows in af.trace_controls(ctx, base[0]):
             jobs.append(((name, expect_accept), (lambda rows=rows, name=name: af.validate_rows(ctx, rows, "ctl_" + name))))
+        if ctx.quick:
+            jobs = [j for j in jobs if j[0][0] in ("drop-file-fsync", "rename-before-fsync", "fsync-wrong-fd",
+                                                   "harmless-chown-anywhere", "no-dir-fsync-still-old-or-new")]
         res = af.run_parallel(jobs, 5)
         for (name, expect_accept), v in sorted(res.items()):
             controls[name] = ("accepted" if v["accepted"] else "rejected: %s" % v["invariant"])
@@ -221,4 +231,5 @@ def run(ctx):
         "binding_controls_on_real_trace": controls,
         "samples": samples,
     })
-    return Result(level="model_checking", coverage=cov, assumptions=af.ASSUMPTIONS, violations=violations)
+    return Result(level="model_checking", coverage=cov, assumptions=af.ASSUMPTIONS, violations=violations,
+                  notes=extra_notes[:5])
